@@ -408,18 +408,25 @@ func (p *wat2cWorker) buildFunc_ins(w io.Writer, fn *ast.Func, stk *valueTypeSta
 					assert(defaultScopeResults[i] == destScopeResults[i])
 				}
 
+				// 每个分支的复制语句必须位于对应的 case 标签之后 (switch 中 case 之前的语句不会被执行)
+				if k == len(i.XList)-1 {
+					assert(labelName == defaultLabelName)
+					fmt.Fprintf(w, "%sdefault:", indent)
+				} else {
+					fmt.Fprintf(w, "%scase %d:", indent, k)
+				}
+
 				// 带返回值的情况
 				if len(destScopeResults) > 0 {
 					// 必须确保当前block的stk上有足够的返回值
 					assert(currentScopeStackBase+len(destScopeResults) >= stk.Len())
 
-					// 第一个返回值返回值的偏移地址
-					firstResultOffset := stk.Len() - len(destScopeResults)
+					// 第一个返回值返回值的偏移地址 (返回值已经出栈, 位置记录在 retIdxList 中)
+					firstResultOffset := retIdxList[0]
 
-					// 如果返回值位置和目标block的base不一致则需要逐个复制
+					// 如果返回值位置和目标block的base不一致则需要逐个复制 (升序复制, 避免相互覆盖)
 					if firstResultOffset > destScopeStackBase {
-						// 返回值是逆序出栈
-						fmt.Fprintf(w, "%s// copy br %s result\n", indent, labelName)
+						fmt.Fprintf(w, " // copy br %s result\n", labelName)
 						for i := 0; i < len(destScopeResults); i++ {
 							xType := destScopeResults[i]
 							reti := retIdxList[i]
@@ -439,16 +446,7 @@ func (p *wat2cWorker) buildFunc_ins(w io.Writer, fn *ast.Func, stk *valueTypeSta
 					}
 				}
 
-				if k == len(i.XList)-1 {
-					assert(labelName == defaultLabelName)
-					fmt.Fprintf(w, "%sdefault: goto L_%s_next;\n",
-						indent, toCName(defaultLabelName),
-					)
-				} else {
-					fmt.Fprintf(w, "%scase %d: goto L_%s_next;\n",
-						indent, k, toCName(labelName),
-					)
-				}
+				fmt.Fprintf(w, " goto L_%s_next;\n", toCName(labelName))
 			}
 		}
 
